@@ -69,7 +69,11 @@ CLAIMS = {
  "C31": ("query-sim", "exploration", "7.31",
    "deterministic simulation: bursts of client goroutines on query runners sharing one semaphore, seeded scheduler + fake clock (semaphore time-outs), failures after slot acquisition and cancellations injected; history oracle over scheduler steps",
    "K in 1..3 slots, K+1..3K+2 clients issue 1-2 queries each at drawn simulated instants; a call succeeds, fails with an I/O error on the interface listing (after the slot was taken) or is cancelled at a drawn operation; the scheduler interleaves at every file-system operation and advances the fake clock so TryAddFor time-outs expire. Checked: executing <= K at every step, 'too many requests' only if all K slots were held throughout the waiting window, no slot held after quiescence, K fresh queries succeed, every caller returns.",
-   "Engine variant only so far (the distributed runner shares the same semaphore logic and is added with dist-sim). Each client uses its own QueryRunner on the shared semaphore."),
+   "Two variants share the wall budget of the check: the engine variant (query-sim: each client its own engine.QueryRunner on the shared semaphore) and the distributed variant (dist-sim: one shared distributed.QueryRunner with WithMaxConcurrent, failures after slot acquisition = resolver error, query safeguard, all hosts down; cancellations after a drawn delay; host replies take 0-2 s of simulated time)."),
+ "C15": ("dist-sim", "exploration", "7.15",
+   "deterministic simulation: real distributed query runner, API client querier (fan-out/fan-in) and HTTP client stack (retries, back-off, request time-out) over a simulated transport and fake clock; the seeded scheduler decides which in-flight request is answered next; results of several schedules compared with each other and with a reference merge",
+   "2-6 simulated hosts with generated results (rows that collide across hosts, empty results, different First/Last, statistics) and per-host fault scripts (delays, lost connection then success, 500/502/429 then success, permanent 500, partition until the request time-out, unreachable) are queried 3-4 times through the real runner with MaxConcurrent 1..N under different seeded schedules plus once through RunStreaming; all merged results must be equal to each other and to the reference merge of the hosts whose final outcome is success (rows as multiset with summed counters, totals, hits, statistics, interfaces, per-host statuses, First/Last, status code); partial results of the streaming run never exceed the final result.",
+   "The hosts' own query engine is not run behind the transport (their answers are generated results serialised with the real marshalers). Row order, timing fields and error texts (only presence) are not compared. Malformed bodies are not injected."),
  "C20": ("capture-sim", "exploration", "7.20",
    "deterministic simulation: real capture manager with simulated packet sources, fake clock (testing/synctest), simulated disk and a seeded scheduler at every seam; class-wise conservation oracle (orientation-tolerant) over all written blocks plus in-memory flows",
    "One interface, 1-6 generated conversations (both IP versions, TCP/UDP/ICMP/ESP/GRE, both directions, common and ephemeral ports, fragments, truncated headers, non-IP frames) delivered in bursts at drawn simulated instants (some exactly on rotation ticks) while the real rotation ticker, status calls and live snapshots run; the scheduler interleaves packet delivery, the capture loop, lock/unlock, rotation and write-out. Oracle: per class of conversations sharing candidate stored keys the four counters summed over all blocks (read back through the real reader) plus the in-memory flows equal the parsed packets; every record key is a candidate key of a delivered conversation (no source port, right family); no empty record; no conversation in two records of one block.",
@@ -100,6 +104,7 @@ ENGINES = {
  "store-sim": ("harness/store", "real gpfile/DBWriter/reader/listing/query/CSV-import code over the simulated disk; seeded histories of write sessions, restarts, kills, torn writes and I/O errors"),
  "merge-sim": ("harness/merge", "real MergeDatabases over a read-only source disk and a destination disk; generated database pairs; kills at every structural operation"),
  "capture-sim": ("harness/capture", "real capture manager (three-point lock, packet loop, local buffer, flow log, rotation goroutine, write-out handler, DB writer, live-query path) with simulated packet sources, fake clock, simulated disk and a seeded scheduler at every seam (source calls, mutexes via simsync, file-system operations)"),
+ "dist-sim": ("harness/dist", "real distributed query runner (cmd/global-query), API client querier and HTTP client stack over a simulated transport and fake clock; reply order, delays, losses, errors, partitions and semaphore time-outs decided by the simulator; also serves the distributed variant of C31"),
  "query-sim": ("harness/query", "real query engine over databases written by the real writer; worker count, memory mode, goroutine schedule (seeded scheduler in a synctest bubble), reader/writer interleaving, stored-byte damage and semaphore time-outs decided by the simulator"),
 }
 
@@ -124,7 +129,7 @@ def main():
     na = [{"property_id":k,"reason":v} for k,v in NA.items()]
     for pid in ALL:
         if pid not in CLAIMS and pid not in NA:
-            na.append({"property_id":pid,"reason":"check under construction (DESIGN.md section 7); not claimed yet"})
+            na.append({"property_id":pid,"reason":"not claimed and NOT a not-applicable verdict: the property is a simulation target (DESIGN.md section 7), but its engine was not built in the time available (DESIGN.md section 12); nothing is asserted about it"})
     m = {
      "version":1,
      "setup_cmd":"./setup.sh",
